@@ -75,7 +75,7 @@ def main(pid, tier, seed):
           'open_finding_in_model': {'cfg': 'MC_Scorer_open.cfg', 'violated': r2.violated}}
     traces, meta = [], {}
     tid = 0
-    n_lists = 8 if tier == 'quick' else 80
+    n_lists = 8 if tier == 'quick' else 250
     n_cands = 0
     for k in range(n_lists):
         pool = rng.choice(list(check_train.POOLS))
